@@ -345,3 +345,8 @@ def run(prog, rep, tier, snap):
     rep.rule("R16.6", "the fillers and their helpers carry no state from one rule to the next (shared with C16)", 1)
     rep.call(state.no_carried_state, prog, rep, "R16.6", "rrule")
 READY = True
+
+# texts brought up to date with the rules added in the last rounds
+LEVEL_TEXT = LEVEL_TEXT + ' Also (added later): the stepped cursor of each filler moves by INTERVAL and modular reduction only; stepped-back counters tested against 0 are signed; BY-lists are unrolled whole, never cut down to COUNT; a month from the day-of-year conversion is packed only when it is at most 12; the number of ISO weeks of every year 1901..2099 by a value-fixed walk; the seed of the next batch stays on the wall clock; no state carried from one rule to the next.'
+TECHNIQUE = (TECHNIQUE if isinstance(TECHNIQUE, str) else TECHNIQUE) + "; value-fixed walks of small pure functions in the compiler's types"
+
